@@ -1856,6 +1856,12 @@ def py_getattr(it, obj, name, *d):
 
 
 def py_hasattr(it, obj, name):
+    if name == "__iter__" and not isinstance(obj, Obj):
+        if is_t(obj):
+            return obj.sort == "String" or (not isinstance(obj.sort, str) and obj.sort[0] in ("Seq", "Tup"))
+        if isinstance(obj, (SymList, SymMap, SymSet, FStr, GenObj)):
+            return True
+        return hasattr(obj, "__iter__")
     try:
         it.lib.getattr_(it, obj, name, None, None, False)
         return True
@@ -1919,6 +1925,7 @@ def make_builtins(it):
         "int": b("int", lambda v=0, base=None: py_int(it, v, base)),
         "float": b("float", lambda v=0.0: py_float(it, v)),
         "str": b("str", lambda v="": py_str(it, v)),
+        "bytes": b("bytes", lambda *a: (_ for _ in ()).throw(Unsupported("bytes() constructor"))),   # isinstance() only
         "repr": b("repr", lambda v: Opaque("repr")),
         "bool": b("bool", lambda v=False: py_bool(it, v)),
         "round": b("round", lambda x, nd=None: py_round(it, x, nd)),
